@@ -267,7 +267,131 @@ theorem C18_destination_counterexample_before_fix :
     destPath ["a".toList, "b".toList] "dst/".toList = ["a".toList, "b".toList, "dst".toList] ∧
     destPath [] "a/b/dst/".toList = ["a".toList, "b".toList, "dst".toList] := by decide
 
+/-! ## no targets: exactly the descendants of the current directory, component-wise -/
+
+/-- what `properAncestor` says: the components of `p` are the components of `cwd` followed by at
+    least one more component -/
+theorem C18_properAncestor_spec (cwd : List Str) (p : Str) :
+    properAncestor cwd p = true ↔ ∃ rest, rest ≠ [] ∧ splitSlash p = cwd ++ rest := by
+  unfold properAncestor
+  simp only [Bool.and_eq_true, decide_eq_true_eq, List.isPrefixOf_iff_prefix]
+  constructor
+  · rintro ⟨⟨rest, hr⟩, hlen⟩
+    refine ⟨rest, ?_, hr.symm⟩
+    intro e
+    subst e
+    rw [← hr] at hlen
+    simp at hlen
+  · rintro ⟨rest, hne, hr⟩
+    refine ⟨⟨rest, hr.symm⟩, ?_⟩
+    rw [hr, List.length_append]
+    have : 0 < rest.length := List.length_pos_iff.mpr hne
+    omega
+
+/-- the character-level test the glob `cwd/**` performs (`cwd/` is a string prefix of `p`) IS the
+    component-level relation, for every well-formed `cwd` and EVERY string `p` -/
+theorem isPrefixOf_slash_eq_properAncestor (cwd : List Str) (h : cwd ≠ []) (hw : WfCwd cwd) (p : Str) :
+    (cwdStr cwd ++ ['/']).isPrefixOf p = properAncestor cwd p := by
+  rw [Bool.eq_iff_iff, C18_properAncestor_spec, List.isPrefixOf_iff_prefix]
+  constructor
+  · rintro ⟨r, rfl⟩
+    have e : cwdStr cwd ++ ['/'] ++ r = rootTarget cwd r := by
+      rw [rootTarget_eq cwd r h]; simp
+    rw [e, splitSlash_rootTarget cwd hw r]
+    exact ⟨splitSlash r, splitSlash_ne_nil r, rfl⟩
+  · rintro ⟨rest, hne, hr⟩
+    have hp : p = rootTarget cwd (joinComps rest) := by
+      rw [← joinComps_splitSlash p, hr, joinComps_append cwd rest hne]
+      rfl
+    rw [hp, rootTarget_eq cwd _ h]
+    exact ⟨joinComps rest, by simp⟩
+
+/-- **C18, no targets, for ALL names.**  A command run without targets in `cwd` selects a recorded
+    path `p` (a path on disk `p`) if and only if `cwd` is a proper component-wise ancestor of `p`
+    — whatever the names are: a sibling whose name merely extends the name of the current directory
+    (`data2/`, `data-old/`, `data.bak/`, `datafile.txt` next to `data/`), the directory itself, and
+    a directory whose name is a prefix of it (`da/`) are never selected. -/
+theorem C18_no_targets_selects_exactly_descendants (isDir gitTracked : Str → Bool) (filterGit : Bool)
+    (cwd : List Str) (h : cwd ≠ []) (hw : WfCwd cwd) (hl : Literal cwd)
+    (hdir : isDir (cwdStr cwd) = true) (paths disk : List Str) (p : Str) :
+    (p ∈ selectStore globMatch isDir cwd none paths ↔ p ∈ paths ∧ properAncestor cwd p = true) ∧
+    (p ∈ selectDisk globMatch isDir gitTracked filterGit cwd none disk ↔
+      (p ∈ disk ∧ (filterGit && gitTracked p) = false) ∧ properAncestor cwd p = true) := by
+  obtain ⟨hs, hd⟩ := C18_no_targets_means_cwd isDir gitTracked filterGit cwd h hw hl hdir paths disk
+  rw [hs, hd]
+  constructor
+  · simp only [List.mem_filter, isPrefixOf_slash_eq_properAncestor cwd h hw]
+  · simp only [List.mem_filter, isPrefixOf_slash_eq_properAncestor cwd h hw, Bool.not_eq_true']
+
+/-- the same as one equation: the selection is the path store filtered by the component-wise test -/
+theorem C18_no_targets_filter_descendants (isDir : Str → Bool) (cwd : List Str) (h : cwd ≠ [])
+    (hw : WfCwd cwd) (hl : Literal cwd) (hdir : isDir (cwdStr cwd) = true) (paths : List Str) :
+    selectStore globMatch isDir cwd none paths = paths.filter (properAncestor cwd) := by
+  rw [(C18_no_targets_means_cwd isDir (fun _ => false) false cwd h hw hl hdir paths []).1]
+  apply List.filter_congr
+  intro p _
+  exact isPrefixOf_slash_eq_properAncestor cwd h hw p
+
+/-- **C18, no targets, siblings.**  Standing in `parent/c`: a path below `parent` whose next
+    component is not exactly `c` — a sibling directory `c'` with anything below it, or a sibling
+    file — is not selected, even when `c` is a string prefix of `c'`. -/
+theorem C18_no_targets_excludes_siblings (isDir : Str → Bool) (parent : List Str) (c u : Str)
+    (hw : WfCwd (parent ++ [c])) (hl : Literal (parent ++ [c]))
+    (hdir : isDir (cwdStr (parent ++ [c])) = true) (hu : (splitSlash u).head? ≠ some c)
+    (paths : List Str) :
+    rootTarget parent u ∉ selectStore globMatch isDir (parent ++ [c]) none paths := by
+  intro hm
+  have hwp : WfCwd parent := fun x hx => hw x (List.mem_append_left _ hx)
+  have hpa := ((C18_no_targets_selects_exactly_descendants isDir (fun _ => false) false
+    (parent ++ [c]) (by simp) hw hl hdir paths [] (rootTarget parent u)).1.mp hm).2
+  obtain ⟨rest, _, hr⟩ := (C18_properAncestor_spec _ _).mp hpa
+  rw [splitSlash_rootTarget parent hwp u, List.append_assoc] at hr
+  have hr' := List.append_cancel_left hr
+  rw [hr'] at hu
+  simp at hu
+
+/-- the string-prefix shortcut is a different function: in `data` (and, nested, in `proj/train`)
+    it also takes the recorded paths of the siblings `data2/`, `data-old/`, `data.bak/`,
+    `datafile.txt` (`proj/train_aug/`, `proj/train.csv`); the model of the code takes none of them.
+    Replayed on the real binary by `lib/c18.py` (corpus, layout `prefix`). -/
+theorem C18_string_prefix_selection_differs :
+    selectStore globMatch (fun d => d == "data".toList) ["data".toList] none
+      ["data/a.txt".toList, "data/raw/r.txt".toList, "data2/b.txt".toList, "data-old/c.txt".toList,
+       "data.bak/d.dat".toList, "datafile.txt".toList, "data".toList, "da/x.txt".toList]
+      = ["data/a.txt".toList, "data/raw/r.txt".toList] ∧
+    strPrefixSelect ["data".toList]
+      ["data/a.txt".toList, "data/raw/r.txt".toList, "data2/b.txt".toList, "data-old/c.txt".toList,
+       "data.bak/d.dat".toList, "datafile.txt".toList, "data".toList, "da/x.txt".toList]
+      = ["data/a.txt".toList, "data/raw/r.txt".toList, "data2/b.txt".toList, "data-old/c.txt".toList,
+         "data.bak/d.dat".toList, "datafile.txt".toList] ∧
+    selectStore globMatch (fun d => d == "proj/train".toList) ["proj".toList, "train".toList] none
+      ["proj/train/t.txt".toList, "proj/train_aug/u.txt".toList, "proj/train.csv".toList,
+       "proj/tr/v.txt".toList]
+      = ["proj/train/t.txt".toList] ∧
+    strPrefixSelect ["proj".toList, "train".toList]
+      ["proj/train/t.txt".toList, "proj/train_aug/u.txt".toList, "proj/train.csv".toList,
+       "proj/tr/v.txt".toList]
+      = ["proj/train/t.txt".toList, "proj/train_aug/u.txt".toList, "proj/train.csv".toList] := by
+  decide
+
 /-! ## non-vacuity -/
+
+/-- a string-prefix sibling is NOT selected: `data2/b.txt` with the current directory `data` -/
+example : "data2/b.txt".toList ∉
+    selectStore globMatch (fun _ => true) ["data".toList] none
+      ["data/a.txt".toList, "data2/b.txt".toList] := by decide
+example : properAncestor ["data".toList] "data2/b.txt".toList = false ∧
+    properAncestor ["data".toList] "data/raw/r.txt".toList = true ∧
+    properAncestor ["data".toList] "data".toList = false ∧
+    properAncestor ["proj".toList, "train".toList] "proj/train_aug/u.txt".toList = false := by decide
+/-- the hypotheses of `C18_no_targets_excludes_siblings` hold for `data` / `data2/b.txt` and,
+    nested, for `proj/train` / `train_aug/u.txt` -/
+example : WfCwd ([] ++ ["data".toList]) ∧ Literal ([] ++ ["data".toList]) ∧
+    (splitSlash "data2/b.txt".toList).head? ≠ some "data".toList := by
+  refine ⟨?_, ?_, by decide⟩ <;> (intro c hc; simp at hc; subst hc; decide)
+example : WfCwd (["proj".toList] ++ ["train".toList]) ∧ Literal (["proj".toList] ++ ["train".toList]) ∧
+    (splitSlash "train_aug/u.txt".toList).head? ≠ some "train".toList := by
+  refine ⟨?_, ?_, by decide⟩ <;> (intro c hc; simp at hc; rcases hc with rfl | rfl <;> decide)
 
 example : WfCwd ["a".toList, "b".toList, "c".toList] := by
   intro c hc; simp at hc; rcases hc with rfl | rfl | rfl <;> decide
@@ -343,3 +467,13 @@ open Targets in
 #print axioms C18_store_counterexample_before_fix
 open Targets in
 #print axioms C18_dotdot_counterexample
+open Targets in
+#print axioms C18_properAncestor_spec
+open Targets in
+#print axioms C18_no_targets_selects_exactly_descendants
+open Targets in
+#print axioms C18_no_targets_filter_descendants
+open Targets in
+#print axioms C18_no_targets_excludes_siblings
+open Targets in
+#print axioms C18_string_prefix_selection_differs
